@@ -307,6 +307,61 @@ func ruleGL() Rule {
 				}
 				return false
 			}
+			// a list that was sorted under another name and then assigned is sorted
+			sortedSrc := map[types.Object]map[ast.Node]bool{}
+			srcSorted := func(as *ast.AssignStmt, i int) bool {
+				id, ok := ast.Unparen(as.Rhs[i]).(*ast.Ident)
+				if !ok {
+					return false
+				}
+				src := info.Uses[id]
+				if src == nil {
+					return false
+				}
+				m, done := sortedSrc[src]
+				if !done {
+					m = fl.MustSeen(false, func(n ast.Node) bool {
+						call, ok := n.(*ast.CallExpr)
+						if !ok || len(call.Args) < 1 {
+							return false
+						}
+						switch calleeName(info, call) {
+						case "sort.Strings", "slices.Sort":
+						default:
+							return false
+						}
+						aid, ok := ast.Unparen(call.Args[0]).(*ast.Ident)
+						return ok && info.Uses[aid] == src
+					}, func(n ast.Node) bool {
+						// any later append to / assignment of the source un-sorts it
+						a2, ok := n.(*ast.AssignStmt)
+						if !ok {
+							return false
+						}
+						for _, l := range a2.Lhs {
+							if lid, ok := l.(*ast.Ident); ok && (info.Uses[lid] == src || info.Defs[lid] == src) {
+								return true
+							}
+						}
+						return false
+					})
+					sortedSrc[src] = m
+				}
+				return m[as]
+			}
+			reset0 := reset
+			reset = func(n ast.Node) bool {
+				if !reset0(n) {
+					return false
+				}
+				as := n.(*ast.AssignStmt)
+				for i, l := range as.Lhs {
+					if id, ok := l.(*ast.Ident); ok && info.Uses[id] == pathsObj && i < len(as.Rhs) && srcSorted(as, i) {
+						return false
+					}
+				}
+				return true
+			}
 			seen := fl.MustSeen(true, isSort, reset)
 			for _, r := range rets {
 				key := f.Name + "|return " + exprStr(r.Results[0])
